@@ -56,6 +56,10 @@ fn case(inp: &[u64]) -> Result<(), String> {
     chk0!("SelectZeroAdapt(3)", SelectZeroAdapt::new(nb(), 3));
     chk0!("SelectZeroAdapt::with_inv(4,1)", SelectZeroAdapt::with_inv(nb(), 4, 1));
     chk0!("SelectZeroAdapt::with_inv(12,2)", SelectZeroAdapt::with_inv(nb(), 12, 2));
+    chk0!("SelectZeroAdapt::with_inv(13,3)", SelectZeroAdapt::with_inv(nb(), 13, 3));
+    chk1!("SelectAdapt::with_inv(13,3)", SelectAdapt::with_inv(nb(), 13, 3));
+    chk1!("SelectAdaptConst<13,3>", SelectAdaptConst::<_, _, 13, 3>::new(nb()));
+    chk0!("SelectZeroAdaptConst<13,2>", SelectZeroAdaptConst::<_, _, 13, 2>::new(nb()));
     chk0!("SelectZeroAdaptConst<12,3>", SelectZeroAdaptConst::<_, _>::new(nb()));
     chk0!("SelectZeroAdaptConst<5,2>", SelectZeroAdaptConst::<_, _, 5, 2>::new(nb()));
     chk1!("Select9", Select9::new(Rank9::new(b.clone())));
@@ -196,7 +200,7 @@ pub fn run(case_name: &str, ctx: &mut Ctx, one: Option<&str>, rng: &mut Rng, bud
         let len = (g * 1300 + 77).min(700_000);
         let v = vec![len, len + (seed % 3) * 300, 1_000_000 + g, seed]; let s = fmt_list(&v); ctx.trial(&s, false, || case(&v));
     } }
-    for (g, lc) in [(4096u64, 4u64), (2048, 5), (128, 9), (16, 12), (65536, 4), (8192, 3)] { for e in [0u64, 1, 2] { for par in [0u64, 1] {
+    for (g, lc) in [(4096u64, 4u64), (2048, 5), (128, 9), (16, 12), (65536, 4), (8192, 3), (16, 13), (128, 13), (32, 12), (64, 12)] { for e in [0u64, 1, 2] { for par in [0u64, 1] {
         let len = (g << lc) * 4 + 1000;
         let v = vec![len, len, 1_000_000 + g, par + (lc << 20) + (e << 24)]; let s = fmt_list(&v); ctx.trial(&s, false, || case(&v));
     } } }
